@@ -54,8 +54,12 @@ def _run_dirs(ego, env, sd, dirs, tag):
     for i, r in enumerate(res):         # a process that printed no summary line at all never got to the tests: once more
         if r[0] is not None and "TEST: Completed" not in r[1] and "TEST: " not in r[1]:
             res[i] = vf.run_many([jobs[i]], nproc=1, timeout=600)[0]
+    slow = [i for i, r in enumerate(res) if r[0] is None]
+    if slow:                            # an overloaded machine, not a verdict: once more, fewer at a time, longer
+        for i, r in zip(slow, vf.run_many([jobs[i] for i in slow], nproc=4, timeout=2400)):
+            res[i] = r
     if any(r[0] is None for r in res):
-        raise vf.NoVerdict("%d `ego test` processes did not finish within 600 s" % sum(r[0] is None for r in res))
+        raise vf.NoVerdict("%d `ego test` processes did not finish within 2400 s" % sum(r[0] is None for r in res))
     return [(cs, bl, r, d) for (cs, bl, d), r in zip(meta, res)]
 
 
